@@ -442,3 +442,138 @@ pub fn e7gen() -> i32 {
     }
     0
 }
+
+// ---------------------------------------------------------------- one-off searches for rare events (results committed under witnesses/)
+
+fn sib_bytes(tau: usize, c_tilde: &[u8]) -> usize {
+    use sha3::digest::{ExtendableOutput, Update, XofReader};
+    let mut x = sha3::Shake256::default();
+    x.update(c_tilde);
+    let mut rd = x.finalize_xof();
+    let mut s = [0u8; 8];
+    rd.read(&mut s);
+    let mut n = 0usize;
+    for i in (256 - tau)..256 {
+        let mut j = [0u8; 1];
+        rd.read(&mut j);
+        n += 1;
+        while usize::from(j[0]) > i {
+            rd.read(&mut j);
+            n += 1;
+        }
+    }
+    n
+}
+
+/// `mc raresearch <sib|expands|ct> [tries]`
+pub fn raresearch(what: &str, tries: u64) -> i32 {
+    let root = crate::report::verif_root();
+    match what {
+        // SampleInBall: commitment hashes whose challenge needs the most squeezed index bytes
+        "sib" => {
+            let mut out = Vec::new();
+            for p in refmodel::ALL_PARAMS {
+                let n = if p.id == 87 { tries } else { tries / 6 };
+                let chunk = 1u64 << 22;
+                let mut best: Vec<(usize, u64)> = Vec::new();
+                let mut base = 0u64;
+                while base < n {
+                    let mut b: Vec<(usize, u64)> = (base..base + chunk)
+                        .into_par_iter()
+                        .map(|i| {
+                            let ct = refmodel::shake256(&[b"sib-search", &p.id.to_le_bytes(), &i.to_le_bytes()], p.ctilde_len());
+                            (sib_bytes(p.tau, &ct), i)
+                        })
+                        .fold(Vec::new, |mut acc: Vec<(usize, u64)>, x| {
+                            acc.push(x);
+                            if acc.len() > 64 {
+                                acc.sort_unstable_by(|a, b| b.cmp(a));
+                                acc.truncate(4);
+                            }
+                            acc
+                        })
+                        .reduce(Vec::new, |mut a, mut b| {
+                            a.append(&mut b);
+                            a
+                        });
+                    best.append(&mut b);
+                    best.sort_unstable_by(|a, b| b.cmp(a));
+                    best.truncate(4);
+                    base += chunk;
+                }
+                println!("ML-DSA-{} tau={} tries={n}: most index bytes {:?}", p.id, p.tau, best);
+                for (bytes, i) in best {
+                    let ct = refmodel::shake256(&[b"sib-search", &p.id.to_le_bytes(), &i.to_le_bytes()], p.ctilde_len());
+                    out.push(json!({"set": p.id, "index_bytes": bytes, "c_tilde": refmodel::hex(&ct)}));
+                }
+            }
+            std::fs::write(format!("{root}/witnesses/sample_in_ball_long.json"), serde_json::to_string_pretty(&json!({"how": "commitment hashes SHAKE256('sib-search'||set||i) whose SampleInBall squeezes the most index bytes", "witnesses": out})).unwrap()).unwrap();
+        }
+        // ExpandS (eta = 4): seeds whose RejBoundedPoly consumes the most bytes
+        "expands" => {
+            let p = &refmodel::P65;
+            let chunk = 1u64 << 20;
+            let mut best: Vec<(usize, u64)> = Vec::new();
+            let mut base = 0u64;
+            while base < tries {
+                let mut b: Vec<(usize, u64)> = (base..base + chunk)
+                    .into_par_iter()
+                    .map(|i| {
+                        let xi = crate::alpha::counter32(0, "expands", i);
+                        let seed128 = refmodel::h(&[&xi, &[p.k as u8], &[p.l as u8]], 128);
+                        let mut mx = 0usize;
+                        for r in 0..p.l + p.k {
+                            let mut rp = seed128[32..96].to_vec();
+                            rp.extend_from_slice(&(r as u16).to_le_bytes());
+                            let mut bs = refmodel::BoundedStats::default();
+                            let _ = refmodel::rej_bounded_poly_stats(p.eta, &rp, &mut bs);
+                            mx = mx.max(bs.bytes_used);
+                        }
+                        (mx, i)
+                    })
+                    .filter(|x| x.0 >= 285)
+                    .collect();
+                best.append(&mut b);
+                best.sort_unstable_by(|a, b| b.cmp(a));
+                best.truncate(6);
+                base += chunk;
+            }
+            println!("ML-DSA-65 ExpandS tries={tries}: most bytes per polynomial {best:?}");
+            let out: Vec<_> = best.iter().map(|(b, i)| json!({"set": 65, "bytes": b, "seed": refmodel::hex(&crate::alpha::counter32(0, "expands", *i))})).collect();
+            std::fs::write(format!("{root}/witnesses/expand_s_long.json"), serde_json::to_string_pretty(&json!({"how": "counter seeds (tag expands) whose ExpandS polynomial consumes the most SHAKE256 bytes (eta = 4)", "witnesses": out})).unwrap()).unwrap();
+        }
+        // constant-time test mode: RNG answers for which NTT(c) or the NTT-domain secret vectors contain a zero coefficient
+        "ct" => {
+            let mut out = Vec::new();
+            for api in APIS {
+                let p = api.p;
+                let found: Vec<(u64, String)> = (0..tries)
+                    .into_par_iter()
+                    .filter_map(|i| {
+                        let d = refmodel::shake256(&[b"ct-search", &p.id.to_le_bytes(), &i.to_le_bytes()], 64);
+                        let mut rng = crate::rng::ScriptRng::oks(&[&d[..32], &d[32..]]);
+                        let sig = (api.dudect)(&mut rng, b"m").ok()?.ok()?;
+                        // test-mode SampleInBall: +-1 on the last tau positions, signs from the first 8 hash bytes
+                        let hb = refmodel::bytes_to_bits(&refmodel::shake256(&[&sig[..p.ctilde_len()]], 8));
+                        let mut c = POLY0;
+                        for i in (256 - p.tau)..256 {
+                            c[i] = if hb[i + p.tau - 256] == 1 { -1 } else { 1 };
+                        }
+                        if refmodel::ntt(&c).iter().any(|&x| x == 0) {
+                            return Some((i, "ntt(c) has a zero coefficient".to_string()));
+                        }
+                        None
+                    })
+                    .collect();
+                println!("ML-DSA-{}: {} witnesses in {tries} tries", p.id, found.len());
+                for (i, why) in found.into_iter().take(3) {
+                    let d = refmodel::shake256(&[b"ct-search", &p.id.to_le_bytes(), &i.to_le_bytes()], 64);
+                    out.push(json!({"set": p.id, "why": why, "rng_answers": refmodel::hex(&d)}));
+                }
+            }
+            std::fs::write(format!("{root}/witnesses/ct_rare_inputs.json"), serde_json::to_string_pretty(&json!({"how": "RNG answers SHAKE256('ct-search'||set||i) (xi || rnd) for dudect_keygen_sign_with_rng(msg = 'm') selected because an intermediate of the test-mode run has a zero coefficient", "witnesses": out})).unwrap()).unwrap();
+        }
+        _ => return 2,
+    }
+    0
+}
